@@ -110,7 +110,10 @@ def stats(behs):
     return acts, f1, f14
 
 
-def replay(ctx, behs, label, workers=8, timeout=1500):
+SCEN = "TestVerifTSMEngineScenarios"
+
+
+def replay(ctx, behs, label, workers=8, timeout=1500, scenarios=False):
     fast = None
     env = {}
     if os.path.isdir("/dev/shm") and os.access("/dev/shm", os.W_OK):
@@ -119,19 +122,28 @@ def replay(ctx, behs, label, workers=8, timeout=1500):
     try:
         p = ctx.write_json("beh-%s.json" % label, {"consts": {"MaxT": 2}, "behaviours": behs, "workers": workers})
         env["VERIF_IN"] = p
-        return ctx.go_test(PKG, FILES, "^%s$" % TEST, env=env, timeout=timeout, label=label)
+        rx = "^(%s|%s)$" % (TEST, SCEN) if scenarios else "^%s$" % TEST      # one build + one process for both
+        return ctx.go_test(PKG, FILES, rx, env=env, timeout=timeout, label=label)
     finally:
         if fast:
             shutil.rmtree(fast, ignore_errors=True)
 
 
-def replay_and_judge(ctx, behs, label):
+def replay_and_judge(ctx, behs, label, scenarios=False):
     def confirm(rp):
-        recs, out, rc = replay(ctx, [rp["behaviour"]], "confirm", workers=1, timeout=600)
+        if "scenario" in rp:
+            recs, out, rc = ctx.go_test(PKG, FILES, "^%s$" % SCEN, env={}, timeout=600, label="confirm-scenario")
+        else:
+            recs, out, rc = replay(ctx, [rp["behaviour"]], "confirm", workers=1, timeout=600)
         return any(r.get("k") == "mismatch" for r in recs)
-    recs, out, rc = replay(ctx, behs, label)
+    recs, out, rc = replay(ctx, behs, label, scenarios=scenarios)
     done = ctx.process(recs, out, rc, TEST, confirm)
     ctx.cov["traces_validated_against_impl"] += done.get("behaviours", 0)
+    if scenarios:
+        sc = [r for r in recs if r.get("k") == "done" and r.get("test") == SCEN]
+        if not sc and not any(r.get("k") == "mismatch" and str(r.get("sig", "")).startswith("scenario:") for r in recs):
+            raise Infra("driver %s did not complete:\n%s" % (SCEN, out[-3000:]))
+        done["scenarios"] = sc[0].get("scenarios", 0) if sc else 1
     return done
 
 
